@@ -36,31 +36,42 @@ class TokenQueries:
 
     def repr_violation(self):
         """Formula: the accepted input is NOT reproduced by serialisation at token level
-        (some token missing, reordered/duplicated, or emitted under a different tag).
-        Emitted indices strictly increasing, all inside [0,n), and as many as n <=> identity."""
-        m, L = self.m, self.L
+        (some token missing, reordered/duplicated, or emitted under a different tag)."""
+        m, L, N = self.m, self.L, self.N
         viol = []
-        prev = IntV(-1)
-        cnt = IntV(0)
+        seen_ge = [False] * (N + 1)      # some already-emitted index is >= i
+        rep = [False] * N
         for g, fv in L.fields:
-            idx = fv.idx if is_sym(fv.idx) else IntV(fv.idx)
-            viol.append(And(g, Or(idx <= prev, idx < 0, idx >= m.n)))
-            prev = z3.If(B(g), idx, prev)
-            cnt = cnt + z3.If(B(g), IntV(1), IntV(0))
-            same = Or(*[And(ga, m.tag_at(fv.idx) == m.sid(t)) for ga, t in self.emit_tag_alts(fv)])
-            viol.append(And(g, Not(same)))
-        viol.append(cnt != m.n)
+            idx = m.topos(fv.idx)
+            # order: the next emitted index must be larger than everything emitted before
+            viol.append(And(g, Or(*[And(idx.bits[i], seen_ge[i]) for i in range(N)])))
+            viol.append(And(g, Or(idx.bits[N], *[And(idx.bits[i], m.n <= i) for i in range(N)])))
+            alts = self.emit_tag_alts(fv)
+            for i in range(N):
+                same = Or(*[And(ga, m.tag[i] == m.sid(t)) for ga, t in alts])
+                viol.append(And(g, idx.bits[i], Not(same)))
+                rep[i] = Or(rep[i], And(g, idx.bits[i]))
+            acc = False
+            new_ge = list(seen_ge)
+            for i in reversed(range(N)):
+                acc = Or(acc, And(g, idx.bits[i]))
+                new_ge[i] = Or(seen_ge[i], acc)
+            seen_ge = new_ge
+        for i in range(N):
+            viol.append(And(i < m.n, Not(rep[i])))
         return Or(*viol)
 
     def diagnose(self, model):
-        """Which clause of repr_violation does the model satisfy?"""
-        m, L = self.m, self.L
-        ev = lambda t: model.eval(B(t), model_completion=True)
+        m, L, N = self.m, self.L, self.N
+        ev = lambda t: z3.is_true(model.eval(B(t), model_completion=True))
         out = []
-        fields = L.fields
         n = model.eval(m.n, model_completion=True).as_long()
-        act = [(k, model.eval(fv.idx, model_completion=True).as_long() if is_sym(fv.idx) else fv.idx, fv)
-               for k, (g, fv) in enumerate(fields) if z3.is_true(ev(g))]
+        act = []
+        for k, (g, fv) in enumerate(L.fields):
+            if ev(g):
+                idx = m.topos(fv.idx)
+                i = [j for j in range(N + 1) if ev(idx.bits[j])]
+                act.append((k, i[0] if i else -1, fv))
         emitted = [i for _, i, _ in act]
         for i in range(n):
             if i not in emitted:
@@ -68,12 +79,121 @@ class TokenQueries:
         if emitted != sorted(emitted) or len(set(emitted)) != len(emitted):
             out.append("emission order %s" % emitted)
         for k, i, fv in act:
-            tg = [t for ga, t in self.emit_tag_alts(fv) if z3.is_true(ev(ga))]
-            tid = model.eval(m.tag[i], model_completion=True).as_long() if 0 <= i < self.N else -1
+            tg = [t for ga, t in self.emit_tag_alts(fv) if ev(ga)]
+            tid = model.eval(m.tag[i], model_completion=True).as_long() if 0 <= i < N else -1
             it = m.strtab[tid] if 0 <= tid < len(m.strtab) else "?"
             if tg != [it]:
                 out.append("token %d tag %s emitted as %s (%s)" % (i, it, tg, fv.ty))
         return out
+
+    # -- layout specification (independent oracle) ---------------------------------------------
+    def spec_run(self, G):
+        """A[k][p]: after k tokens (k>=1) the position automaton of the spec can be in position p."""
+        m, N = self.m, self.N
+        npos = len(G.syms)
+        pred = {p: [q for q in range(npos) if p in G.follow[q]] for p in range(npos)}
+        match = [[Or(*[m.tag[k] == m.sid(t) for t in G.syms[p]["tags"]]) for p in range(npos)] for k in range(N)]
+        A = [None] * (N + 1)
+        A[0] = None
+        for k in range(1, N + 1):
+            row = []
+            for p in range(npos):
+                if k == 1:
+                    reach = p in G.first
+                else:
+                    reach = Or(*[A[k - 1][q] for q in pred[p]])
+                row.append(And(match[k - 1][p], reach))
+            A[k] = row
+        return A, match, pred
+
+    def spec_member(self, G):
+        m, N = self.m, self.N
+        A, _, _ = self.spec_run(G)
+        conds = [And(m.n == 0, G.nullable)]
+        for k in range(1, N + 1):
+            conds.append(And(m.n == k, Or(*[A[k][p] for p in G.last])))
+        return Or(*conds)
+
+    def spec_member_deleted(self, G, gp):
+        """the token list is a member of the spec language after inserting one token at (mandatory)
+        spec position gp somewhere (i.e. the list is a spec message with that occurrence deleted)."""
+        m, N = self.m, self.N
+        npos = len(G.syms)
+        A, match, pred = self.spec_run(G)
+        # E[k]: ghost position gp taken after k real tokens
+        E = [None] * (N + 1)
+        for k in range(0, N + 1):
+            if k == 0:
+                E[k] = gp in G.first
+            else:
+                E[k] = Or(*[A[k][q] for q in pred[gp]])
+        # Gd[k][p]: after k real tokens, at position p, ghost already inserted earlier
+        Gd = [None] * (N + 1)
+        for k in range(1, N + 1):
+            row = []
+            for p in range(npos):
+                srcs = []
+                if p in G.follow[gp]:
+                    srcs.append(E[k - 1])
+                if k >= 2:
+                    srcs += [Gd[k - 1][q] for q in pred[p]]
+                row.append(And(match[k - 1][p], Or(*srcs)))
+            Gd[k] = row
+        conds = []
+        for k in range(0, N + 1):
+            fin = []
+            if gp in G.last:
+                fin.append(E[k])
+            if k >= 1:
+                fin += [Gd[k][p] for p in G.last]
+            conds.append(And(m.n == k, Or(*fin)))
+        return Or(*conds)
+
+    def all_ok(self, except_index=None):
+        """every token's content is valid for the field type that owns the token's tag (the parser of a
+        different option may or may not accept the same content: left free); `except_index`: that one
+        token's content is invalid for every type."""
+        m = self.m
+        cs = []
+        for ty, vs in m.okf.items():
+            tg = self.tags.get(ty)
+            for i, v in enumerate(vs):
+                own = (m.tag[i] == m.sid(tg)) if tg is not None else False
+                if except_index is None:
+                    cs.append(Or(Not(own), v))
+                else:
+                    bad = (except_index == i)
+                    cs.append(And(Or(Not(own), bad, v), Or(Not(bad), Not(v))))
+        return And(*cs) if cs else True
+
+    def canonical(self):
+        """letter-less content-based parsing picks the variant whose own tag is the tag that was read
+        (the input spells each field canonically)."""
+        m = self.m
+        cs = []
+        for g, ty, idx, var in m.heur_used:
+            fv = FieldV(idx, ty, var)
+            pidx = m.topos(idx)
+            alts = m.emit_tag_alts(fv)
+            same = Or(*[And(ga, pidx.bits[i], m.tag[i] == m.sid(t)) for ga, t in alts for i in range(self.N)])
+            cs.append(Or(Not(g), same))
+        return And(*cs) if cs else True
+
+    def err_is(self, variant, field=None, pred=None):
+        """the parse result is Err(ParseError::<variant>{..}) [with payload field satisfying pred(value)]"""
+        res = self.L.res
+        conds = []
+        for g, v in alt_of(res.err):
+            if isinstance(v, EnumV) and v.variant == variant:
+                if field is None:
+                    conds.append(g)
+                else:
+                    payload = v.payload
+                    if isinstance(payload, list) and len(payload) == 1 and isinstance(payload[0], StructV):
+                        payload = payload[0].fields
+                    if isinstance(payload, dict) and field in payload:
+                        conds.append(And(g, pred(payload[field])))
+        return And(Not(self.L.accepted), Or(*conds))
 
     def solver(self, timeout_ms=120000):
         s = z3.Solver()
